@@ -243,6 +243,27 @@ ADDENDA5 = {
 }
 
 
+ADDENDA6 = {
+    "C01": "Round 6: VAL contract on ecb_val (0 for text that is no number, for every previous content of the by-reference result; run-time error + ON ERROR GOTO modelled).",
+    "C02": "Round 6: jumps back to line 0; ON lists naming a line several times.",
+    "C03": "Round 6: unquoted DATA items with punctuation; VAL contract.",
+    "C04": "Round 6: literal operands beside a DATA line spelling the same constants.",
+    "C05": "Round 6: multi-operand convertible functions whose operands are calls; every operand of the ellipse / arc forms.",
+    "C06": "Round 6: with dependencies on, the program part keeps every line and label.",
+    "C07": "Round 6: every bundled runtime procedure parses and its blocks balance.",
+    "C08": "Round 6: string-literal content in twelve statement positions; concrete enumeration of layouts when convert() processes the text outside the parser primitives.",
+    "C09": "Round 6: loop variables under NEXT lists and bare NEXTs.",
+    "C10": "Round 6: string capacities agree across calls between bundled procedures.",
+    "C11": "Round 6: sizes 1..32766 only change the number; z3 lemma: every stem over [A-Za-z0-9_-] up to 64 characters is kept as the procedure name.",
+    "C12": "Round 6: convert() never writes into the caller's configuration object.",
+    "C13": "Round 6: RUN inside a literal that is followed by further literals.",
+    "C15": "Round 6: extreme inputs through convert_file as well.",
+    "C16": "Round 6: pipe equivalence for HRS / MAX.",
+    "C18": "Round 6: complete full-size pictures (two per format, real files) have exactly w x h samples.",
+    "C19": "Round 6: squashed VEF cut near its end; -s longer than the input terminates.",
+}
+
+
 def build():
     for pid, add in ADDENDA4.items():
         if add not in CHECKS[pid]["text"]:
@@ -251,6 +272,9 @@ def build():
         if add not in CHECKS[pid]["text"]:
             CHECKS[pid]["text"] = CHECKS[pid]["text"].rstrip() + " " + add
     for pid, add in ADDENDA5.items():
+        if add not in CHECKS[pid]["text"]:
+            CHECKS[pid]["text"] = CHECKS[pid]["text"].rstrip() + " " + add
+    for pid, add in ADDENDA6.items():
         if add not in CHECKS[pid]["text"]:
             CHECKS[pid]["text"] = CHECKS[pid]["text"].rstrip() + " " + add
     checks = []
